@@ -1,6 +1,6 @@
 """C17 C API — wrapper discipline (header/ABI agreement, namesake routing, no unwinding, error discipline, ownership pairing)."""
 import re
-from ..mirlib import load, callee_key
+from ..mirlib import load, callee_key, uninspected_results
 from ..c_header import parse_header, parse_rust_sig
 from ..facts import EngineError
 from . import shared_mir as sm
@@ -175,6 +175,16 @@ def run(ctx):
                 r.violate(key, f"{name}: an Err result ({f.rec['locals'][src][:70]}) can reach the return without save_last_error: the C caller gets an error code with no message, or no error at all", f.loc())
     if n < 15:
         raise EngineError("R17.4: fewer than 15 examined Results in extern functions")
+    # a Result that is never examined at all (`let _ = element.set_tag_name(..)`) loses the error too
+    ACCEPTED_DROPS = {("errors::save_last_error", "LocalKey::try_with"): "recording the error must not itself fail or panic during thread teardown (R18.5)"}
+    for f in capi.fns:
+        if capi.is_test_fn(f):
+            continue
+        for bi, ck, ty in uninspected_results(f):
+            key = f"{f.key}|dropped:{ck}"
+            r.inst(key, nontrivial=False, sample={"fn": f.key, "callee": ck, "type": ty[:80], "accepted": ACCEPTED_DROPS.get((f.key, ck))})
+            if (f.key, ck) not in ACCEPTED_DROPS:
+                r.violate(key, f"{f.key}: the {ty[:80]} returned by {ck} is never examined: a failure is reported to the C caller as success and no error message is recorded", f.loc())
     wa = capi.fn("CStreamingHandler::write_all[StreamingHandler]")
     res_sw = [(bi, b["term"]) for bi, b in enumerate(wa.blocks) if b["term"]["k"] == "switch" and wa.describe_operand(b["term"]["d"]) == "res"]
     r.inst("write_all|zero-is-success", sample={"switches_on_res": len(res_sw)})
